@@ -175,18 +175,23 @@ func (ms *MessageStreamer) Go(ctx context.Context, conn StreamConnection) error 
 				mu.Unlock()
 			}
 			if len(msg.Delay) != 0 {
-				if err := ms.doDelay(ctx, msg.Delay, time.Duration(msg.DelaySeconds*float64(time.Second))); err != nil {
-					return err
-				}
 				if msg.DelaySeconds <= 0 {
 					// a zero deadline is how a (gRPC) client nacks: the client no longer
-					// holds these, so they must stop counting against flow control
+					// holds these, so they must stop counting against flow control.
+					// release them BEFORE the nack commits: once it has committed, the
+					// sender may deliver them again, and that new pending entry is not
+					// ours to release
 					mu.Lock()
 					for _, id := range msg.Delay {
 						delete(pending, id)
 					}
-					tryWake()
 					mu.Unlock()
+				}
+				if err := ms.doDelay(ctx, msg.Delay, time.Duration(msg.DelaySeconds*float64(time.Second))); err != nil {
+					return err
+				}
+				if msg.DelaySeconds <= 0 {
+					tryWake()
 				}
 			}
 		}
